@@ -40,7 +40,7 @@ func genC12(r *h.Rng, tier string, idx int) *h.Plan {
 	p.Cfg["pct_depth"] = r.Range(0, 4)
 	p.Tape.Seed = r.U64()
 	p.Tape.MapOrder = r.Pick([]string{"sorted", "reversed", "shuffled"})
-	p.Cfg["expired"] = r.P(1, 100) // (costs a real second or two per run)
+	p.Cfg["expired"] = r.P(1, 45) // (costs a real second or two per run)
 	ids := []string{"s1", "s2", "s3"}
 	rids := []string{"q1", "q2"}
 	weights := []int{6, 3, 4, 3, 3, 1, 2, 3}
@@ -64,8 +64,16 @@ func genC12(r *h.Rng, tier string, idx int) *h.Plan {
 		}
 		p.Cfg["mode"] = "factchurn"
 	}
+	if b, _ := p.Cfg["expired"].(bool); b && p.Cfg["mode"] == nil {
+		// expired items lie around unobserved: mostly readers, which come across
+		// them and queue their purge, next to a few writers
+		p.Cfg["mode"] = "expired"
+		weights = []int{2, 1, 4, 6, 1, 0, 1, 3}
+		p.Cfg["pct_depth"] = r.Range(1, 4)
+	}
 	uniq := 0
 	total := 0
+	lastBody := map[string]map[string]interface{}{}
 	if p.Cfg["mode"] == nil && r.P(1, 4) {
 		// snapshot runs: the location starts with its three facts in place; the
 		// clients search (several candidates) and remove / add (several writes
@@ -76,7 +84,35 @@ func genC12(r *h.Rng, tier string, idx int) *h.Plan {
 		for _, id := range ids {
 			uniq++
 			p.Ops = append(p.Ops, h.Op{K: "addfact", Loc: "L", Id: id, C: -1, J: map[string]interface{}{"v": fmt.Sprintf("u%d", uniq), "tag": "a"}})
+			lastBody[id] = map[string]interface{}{"v": fmt.Sprintf("u%d", uniq), "tag": "a"}
 		}
+	}
+	if p.Cfg["mode"] == nil && r.P(1, 6) {
+		// re-assertion runs: few requests, so that the handful of pre-emptions
+		// falls inside them - one client writes again exactly what the location
+		// holds (a fact, or a rule's disabled flag), another changes the same id
+		p.Cfg["mode"] = "reassert"
+		p.Cfg["clients"] = 3
+		p.Cfg["pct_depth"] = r.Range(1, 3)
+		if r.Bool() {
+			body := map[string]interface{}{"v": "u1", "tag": "a"}
+			p.Ops = append(p.Ops, h.Op{K: "addfact", Loc: "L", Id: "s1", C: -1, J: h.CloneMap(body)})
+			p.Ops = append(p.Ops, h.Op{K: "addfact", Loc: "L", Id: "s1", C: 0, J: h.CloneMap(body)})
+			if r.Bool() {
+				p.Ops = append(p.Ops, h.Op{K: "remfact", Loc: "L", Id: "s1", C: 1})
+			} else {
+				p.Ops = append(p.Ops, h.Op{K: "addfact", Loc: "L", Id: "s1", C: 1, J: map[string]interface{}{"v": "u2", "tag": "b"}})
+			}
+			p.Ops = append(p.Ops, h.Op{K: r.Pick([]string{"getfact", "remfact"}), Loc: "L", Id: "s1", C: 2})
+		} else {
+			p.Ops = append(p.Ops, h.Op{K: "addrule", Loc: "L", Id: "q1", C: -1, J: map[string]interface{}{
+				"when": map[string]interface{}{"pattern": map[string]interface{}{"ev": "e"}}, "action": map[string]interface{}{"code": "'m1'"}}})
+			p.Ops = append(p.Ops, h.Op{K: "enable", Loc: "L", Id: "q1", C: -1, B: false})
+			p.Ops = append(p.Ops, h.Op{K: "enable", Loc: "L", Id: "q1", C: 0, B: false})
+			p.Ops = append(p.Ops, h.Op{K: "enable", Loc: "L", Id: "q1", C: 1, B: true})
+			p.Ops = append(p.Ops, h.Op{K: "event", Loc: "L", C: 2, J: map[string]interface{}{"ev": "e"}})
+		}
+		return p
 	}
 	for c := 0; c < nc; c++ {
 		n := r.Range(1, 4)
@@ -89,6 +125,12 @@ func genC12(r *h.Rng, tier string, idx int) *h.Plan {
 				// "v" is unique (every read is attributable to one write); "tag" comes
 				// from a small domain, so that a term leaves and re-enters the index
 				op = h.Op{K: "addfact", Id: r.Pick(ids), J: map[string]interface{}{"v": fmt.Sprintf("u%d", uniq), "tag": r.Pick([]string{"a", "b"})}}
+				if prev, ok := lastBody[op.Id]; ok && r.P(1, 4) {
+					// the same content once more (a client that re-asserts a fact): a
+					// write like any other, whatever it may look like to an optimiser
+					op.J = h.CloneMap(prev)
+				}
+				lastBody[op.Id] = op.Map()
 			case 1:
 				op = h.Op{K: "remfact", Id: r.Pick(ids)}
 			case 2:
